@@ -532,7 +532,7 @@ def gen_bday_and_tables(tree):
         v = find_assign(tree, name)
         if not (isinstance(v, ast.Call) and same(v.func, 're.compile') and len(v.args) == 1 and isinstance(v.args[0], ast.Constant) and isinstance(v.args[0].value, str)):
             raise Unsupported('%s is not re.compile(<literal>)' % name, v)
-        out += ['/-- source of the `%s` regex (line %d); the hand-written matcher in PygModel/DateParse.lean is pinned to this text by a theorem -/' % (name, v.lineno),
+        out += ['/-- source of the `%s` regex (line %d); a changed text breaks the `rfl` theorem C04.ambiguity_regex_is_modelled (ambiguity only); what the hand-written matcher of PygModel/DateParse.lean does is tied to the regex SEMANTICS by C04.ambiguous_iff -/' % (name, v.lineno),
                 'def re_%s : String := "%s"' % (name, v.args[0].value.replace('\\', '\\\\').replace('"', '\\"')), '']
     tables = 'import PygModel.GenTypes\n\nnamespace Pyg.Gen\n\n' + '\n'.join(out) + '\nend Pyg.Gen\n'
     return bday, tables
